@@ -118,4 +118,14 @@ CHECKS = {
   note='Amplitude signs are convention dependent (magnitudes compared); diattenuator carries known finding '
        'C17-diattenuator-offdiagonal; trace clauses at 1e-7.',
   design='3/C17'),
+ 'C08': dict(
+  technique='Hypothesis-generated sphere/plane prescriptions (and the enumerated samples) against two independent '
+            'derivations (Smith surface formulas on ABCD reference rays; Welford invariant sums), algebraic identities, a '
+            'metamorphic stop-shift pair and a real-ray small-aperture limit',
+  level='Per-surface TSC/CC/TAC/TPC/DC/TAchC/TchC, the five sums (two routes), every identity of the returned families, '
+        'all accessors and operands, stop-shift invariance of S_I/S_IV and the Richardson-extrapolated real marginal-ray '
+        'error are checked on generated lenses. Counter-example search.',
+  note='Two open findings weaken the colour terms (previous-record height) and mirror systems (unsigned indices) inside '
+       'their regions only; near-afocal / zero-invariant systems counted, not judged.',
+  design='3/C08'),
 }
